@@ -329,6 +329,7 @@ pub fn run(ctx: &mut Ctx) -> Result<(), Violation> {
     ctx.stage("random-functions-and-lists", false, r)?;
     let wc = ctx.tier.cases(6_000, 200_000);
     crate::wide::stage_quant(ctx, "wide-functions-and-long-lists", wc)?;
+    crate::wide::stage_collisions(ctx, "operands-with-equal-hash-sub-diagrams", "quant")?;
     Ok(())
 }
 
